@@ -54,6 +54,13 @@ def check(inp):
             bad("MAP_sample", "maximises", idx=int(idx), post=post)
         if float(row["P"].value[0] if np.ndim(row["P"].value) else row["P"].value) != [1.0, 2.0, 3.0][idx]:
             bad("MAP_sample", "is-a-row-of-the-input")
+        # asking again gives the same answer, and asking does not change the table
+        row2, idx2 = MAP_sample(s, return_index=True)
+        row3, idx3 = MAP_sample(s, return_index=True)
+        if idx2 != idx or idx3 != idx:
+            bad("MAP_sample", "same-answer-when-asked-again[call-history]", first=int(idx), again=[int(idx2), int(idx3)])
+        if not np.array_equal(np.asarray(s["ln_prior"]), np.array(inp["lnp"])) or not np.array_equal(np.asarray(s["ln_likelihood"]), np.array(inp["lnl"])):
+            bad("MAP_sample", "leaves-the-samples-unchanged[call-history]", ln_prior=np.asarray(s["ln_prior"]))
         return fails
     P = float(inp["P"][0]) * u.Unit(inp["P"][1])
     Pd = P.to_value(u.day)
@@ -89,6 +96,21 @@ def check(inp):
     ps = float(np.squeeze(periods_spanned(s[0], data)))
     if abs(ps - (max(ts) - min(ts)) / Pd) > 1e-6:
         bad("periods_spanned", "baseline-over-period", got=ps, want=(max(ts) - min(ts)) / Pd)
+    # a reference epoch INSIDE the series (observations on both sides of it): phases are the fractional part in [0, 1), and the diagnostics
+    # are those of these phases
+    if len(ts) > 1:
+        tmid = sorted(ts)[len(ts) // 2] + 0.01 * Pd
+        dm = RVData(Time(np.array(ts), format="mjd", scale="tcb"), rv=np.arange(len(ts)) * u.km / u.s, rv_err=np.ones(len(ts)) * u.km / u.s,
+                    t_ref=Time(tmid, format="mjd", scale="tcb"))
+        want_ph = np.array([((x - tmid) / Pd) % 1.0 for x in sorted(ts)])
+        got_ph = np.asarray(dm.phase(s["P"][0]), dtype=float)
+        if not np.allclose(got_ph, want_ph, atol=1e-9) or got_ph.min() < 0 or got_ph.max() >= 1:
+            bad("RVData.phase", "fractional-periods-since-t_ref[epoch-inside-the-series]", got=got_ph, want=want_ph)
+        else:
+            gm_def, _ = _defs(list(want_ph), 10)
+            gm = float(np.squeeze(max_phase_gap(s[0], dm)))
+            if abs(gm - gm_def) > 1e-9:
+                bad("max_phase_gap", "largest-empty-arc-incl-wrap[epoch-inside-the-series]", got=gm, want=gm_def)
     # order independence and time reversal
     if len(ts) > 1:
         g2 = float(np.squeeze(max_phase_gap(s[0], mk(list(reversed(ts))))))
